@@ -168,41 +168,9 @@ class Pipeline:
                 )
                 continue
 
-            new_absolute_path = (file.input_directory / new_relative_path).resolve()
-            if not new_absolute_path.is_relative_to(file.input_directory):
-                raise InvalidDestinationError(
-                    f"Path generated for {file!r}: {new_relative_path} is not relative to the input directory",
-                )
-
-            # A destination which is a symbolic link would be replaced, not followed:
-            # the directory the destination entry really lives in has to lie in the input directory too
-            destination_directory = (
-                file.input_directory / new_relative_path
-            ).parent.resolve()
-            if not destination_directory.is_relative_to(file.input_directory):
-                raise InvalidDestinationError(
-                    f"Path generated for {file!r}: {new_relative_path} lies in {destination_directory} which is outside of the input directory",
-                )
-
-            # Directories missing on the way to the destination are going to be created:
-            # they have to lie in the input directory too (think of "../new/../<input>/x")
-            destination_parent = file.input_directory / new_relative_path.parent
-            for directory in (destination_parent, *destination_parent.parents):
-                if directory.exists():
-                    break
-                if not directory.resolve().is_relative_to(file.input_directory):
-                    raise InvalidDestinationError(
-                        f"Path generated for {file!r}: {new_relative_path} leads through a directory outside of the input directory",
-                    )
-
-            # Recursive gathering follows symbolic links to directories: the directory
-            # the source entry really lives in has to lie in the input directory too
-            # (the entry itself may be a symbolic link - it is renamed, not followed)
-            source_parent = (file.input_directory / file.relative_path).parent.resolve()
-            if not source_parent.is_relative_to(file.input_directory):
-                raise InvalidDestinationError(
-                    f"{file!r} lives in {source_parent} which is outside of the input directory",
-                )
+            self._verify_destination(
+                file.input_directory, file.relative_path, new_relative_path
+            )
 
             try:
                 self.renamer(file.relative_path, new_relative_path)
@@ -223,12 +191,52 @@ class Pipeline:
             self.log.debug(
                 "Trying again to rename '%s' into '%s'", source_path, destination_path
             )
+            # Renames done in the meantime might have changed where these paths lead to
+            self._verify_destination(input_directory, source_path, destination_path)
             try:
                 self.renamer(source_path, destination_path)
             except FileExistsError:
                 self.resolve_conflict(
                     source_path, destination_path, self.conflict_strategy
                 )
+
+    def _verify_destination(
+        self, input_directory: Path, relative_path: Path, new_relative_path: Path
+    ):
+        """Refuses destinations (and sources) which do not lie in the input directory"""
+        new_absolute_path = (input_directory / new_relative_path).resolve()
+        if not new_absolute_path.is_relative_to(input_directory):
+            raise InvalidDestinationError(
+                f"Path generated for '{relative_path}': {new_relative_path} is not relative to the input directory",
+            )
+
+        # A destination which is a symbolic link would be replaced, not followed:
+        # the directory the destination entry really lives in has to lie in the input directory too
+        destination_directory = (input_directory / new_relative_path).parent.resolve()
+        if not destination_directory.is_relative_to(input_directory):
+            raise InvalidDestinationError(
+                f"Path generated for '{relative_path}': {new_relative_path} lies in {destination_directory} which is outside of the input directory",
+            )
+
+        # Directories missing on the way to the destination are going to be created:
+        # they have to lie in the input directory too (think of "../new/../<input>/x")
+        destination_parent = input_directory / new_relative_path.parent
+        for directory in (destination_parent, *destination_parent.parents):
+            if directory.exists():
+                break
+            if not directory.resolve().is_relative_to(input_directory):
+                raise InvalidDestinationError(
+                    f"Path generated for '{relative_path}': {new_relative_path} leads through a directory outside of the input directory",
+                )
+
+        # Recursive gathering follows symbolic links to directories: the directory
+        # the source entry really lives in has to lie in the input directory too
+        # (the entry itself may be a symbolic link - it is renamed, not followed)
+        source_parent = (input_directory / relative_path).parent.resolve()
+        if not source_parent.is_relative_to(input_directory):
+            raise InvalidDestinationError(
+                f"'{relative_path}' lives in {source_parent} which is outside of the input directory",
+            )
 
     def resolve_conflict(
         self,
